@@ -82,7 +82,11 @@ class TxFetcher:
     def load_cache(cls, filename):
         disk_cache = json.loads(open(filename, "r").read())
         for k, raw_hex in disk_cache.items():
-            cls.cache[k] = Tx.parse_hex(raw_hex)
+            tx = Tx.parse_hex(raw_hex)
+            # same rule as in fetch: only a tx that hashes to the id it is filed under
+            if tx.id() != k:
+                raise RuntimeError(f"cache file is corrupt: {tx.id()} vs {k}")
+            cls.cache[k] = tx
 
     @classmethod
     def dump_cache(cls, filename):
